@@ -877,17 +877,22 @@ class AggregateHook:
     def __exit__(self, *a):
         self.PR.Results.aggregate = self.orig
 
-    def shape_violations(self):
+    def shape_violations(self, base_of=None):
+        """One signature per observable kind: all trajectories, all times, with or without tag_suffix
+        (`base_of`: tag -> base tag of the requested observables; entropies of different cuts share a base)."""
         out = []
+        base_of = base_of or {}
         for batch in self.batches:
             sigs = {}
             for k, res in enumerate(batch):
                 for tag in res.get_result_tags():
                     for t in res.get_result_times(tag):
-                        sigs.setdefault(tag, {}).setdefault(value_sig(res.get_result(tag, t)), (k, t))
-            for tag, d in sigs.items():
+                        sigs.setdefault(base_of.get(tag, tag), {}).setdefault(
+                            value_sig(res.get_result(tag, t)), (tag, k, t))
+            for base, d in sigs.items():
                 if len(d) > 1:
-                    out.append(f"`{tag}`: " + "; ".join(f"{sg} (trajectory {k}, t={t})" for sg, (k, t) in d.items()))
+                    out.append(f"`{base}`: " + "; ".join(f"{sg} (`{tag}`, trajectory {k}, t={t})"
+                                                         for sg, (tag, k, t) in d.items()))
         return out
 
 
@@ -933,6 +938,8 @@ def traj_case(case):
                 obs.append(cls(evaluation_times=[1.0]))
             else:
                 obs.append(cls(evaluation_times=ev))
+                # a second instance of the same observable, distinguished by tag_suffix only
+                obs.append(cls(evaluation_times=ev, tag_suffix="b"))
         kw = dict(observables=obs, log_level=logging.CRITICAL, n_trajectories=case["n_traj"],
                   noise_model=pulser.NoiseModel(state_prep_error=case["p"]))
         np.random.seed(case["np_seed"])
@@ -952,7 +959,7 @@ def traj_case(case):
                     skipped = "fewer than 2 well-prepared atoms in a trajectory (known finding F-13, not C31)"
                 else:
                     out.append(("multi-trajectory-run-fails", f"{type(ex).__name__}: {str(ex)[:220]}"))
-        for v in hook.shape_violations():
+        for v in hook.shape_violations({o.tag: o._base_tag for o in obs}):
             out.append(("observable-value-shape-varies", v))
     c33._restore_logging()
     return out, skipped
